@@ -286,6 +286,8 @@ impl World {
                 if let (Some(b), Some(a)) = (before, after.clone()) {
                     if a != b {
                         self.clients[m].transitions.push((b, usize::MAX - idx, a.clone()));
+                        let sq = self.clients[m].offers;
+                        self.clients[m].transition_seq.push(sq);
                         self.clients[m].reached.insert(a);
                         self.clients[m].queued_props.remove(&g);
                     }
@@ -378,6 +380,8 @@ impl World {
         if changed {
             if let (Some(b), Some(a)) = (before.clone(), after.clone()) {
                 self.clients[m].transitions.push((b, idx, a.clone()));
+                let sq = self.clients[m].offers;
+                self.clients[m].transition_seq.push(sq);
                 self.clients[m].reached.insert(a);
             }
             self.clients[m].queued_props.remove(&g);
